@@ -8,9 +8,10 @@ import (
 	"fmt"
 	"math/bits"
 	"os"
-	"strconv"
 	"runtime"
+	"runtime/debug"
 	"sort"
+	"strconv"
 	"strings"
 	"sync"
 	"sync/atomic"
@@ -351,55 +352,25 @@ type oracle struct {
 	pushH   uint32 // heights at which a retrieved transaction was withheld because it did not fit (size so far + tx > limit)
 	eqH     uint32 // heights at which a retrieved transaction was withheld although it fitted exactly (size so far + tx == limit)
 	fitH    uint32 // heights at which a retrieved transaction was withheld although it fitted with room to spare
-	flags   uint32
-	fired   uint32
+	fired   uint32 // clauses already violated in this history
 }
-
-const (
-	fCarryScan = 1 << iota // the DA was queried in a call that left previously withheld transactions unreleased
-	fRestart
-	fError
-)
 
 func (o *oracle) key() string {
-	return fmt.Sprintf("%x.%d.%x.%x.%x.%x.%x.%x.%x.%x", o.rel, o.maxRel, o.skipped, o.seenTx, o.futH, o.pushH, o.eqH, o.fitH, o.flags, o.fired)
-}
-
-func (o *oracle) historyTags() []string {
-	var t []string
-	if o.pushH != 0 {
-		t = append(t, "history-has-pushback")
-	}
-	if o.eqH != 0 {
-		t = append(t, "history-has-exact-fit-pushback")
-	}
-	if o.fitH != 0 {
-		t = append(t, "history-has-withheld-though-fits")
-	}
-	if o.futH != 0 {
-		t = append(t, "history-has-future-probe")
-	}
-	if o.flags&fCarryScan != 0 {
-		t = append(t, "carryover-nonempty-while-scanning")
-	}
-	if o.flags&fRestart != 0 {
-		t = append(t, "history-has-restart")
-	}
-	if o.flags&fError != 0 {
-		t = append(t, "history-has-retrieval-error")
-	}
-	return t
+	return fmt.Sprintf("%x.%d.%x.%x.%x.%x.%x.%x.%x", o.rel, o.maxRel, o.skipped, o.seenTx, o.futH, o.pushH, o.eqH, o.fitH, o.fired)
 }
 
 // tagsForTx: narrow triggers tied to the transaction the violation is about.
 func (o *oracle) tagsForTx(c *content, i int) []string {
-	t := o.historyTags()
+	var t []string
 	hb := uint32(1) << c.flat[i].h
 	if o.pushH&hb != 0 {
 		t = append(t, "pushback-occurred") // at this transaction's height
 	}
 	if o.eqH&hb != 0 {
 		t = append(t, "tx-size-equals-remaining") // at this transaction's height
+	}
+	if o.fitH&hb != 0 {
+		t = append(t, "withheld-though-it-fits") // at this transaction's height
 	}
 	if o.futH&hb != 0 {
 		t = append(t, "scan-hit-future-height") // this transaction's height was asked for while it was above the tip
@@ -434,7 +405,7 @@ func (o *oracle) observe(cf *config, a answer) []finding {
 			o.seenTx |= c.maskH[p.h]
 			scanned = append(scanned, c.atH[p.h]...)
 		case pFuture:
-			if p.h < 32 {
+			if p.h < len(c.maskH) { // heights beyond the prepared ones never become visible
 				o.futH |= 1 << p.h
 			}
 		}
@@ -454,18 +425,17 @@ func (o *oracle) observe(cf *config, a answer) []finding {
 		}
 		break // only the first withheld transaction tells why the answer ended
 	}
-	if len(a.probes) > 0 && owedBefore&^ansSet != 0 {
-		o.flags |= fCarryScan
-	}
+	// the DA was queried in a call that left previously handed-over transactions unreleased
+	carryScan := len(a.probes) > 0 && owedBefore&^ansSet != 0
 
 	// size-bound
 	if a.size > lim {
-		out = append(out, finding{clSize, o.historyTags(), fmt.Sprintf("answer %s has %d bytes, limit %d", c.names(a.idxs), a.size, lim)})
+		out = append(out, finding{clSize, nil, fmt.Sprintf("answer %s has %d bytes, limit %d", c.names(a.idxs), a.size, lim)})
 	}
 	// sequence clauses
 	for _, i := range a.idxs {
 		if i < 0 {
-			out = append(out, finding{clUnknown, o.historyTags(), "answer contains a transaction that is not on the DA layer"})
+			out = append(out, finding{clUnknown, nil, "answer contains a transaction that is not on the DA layer"})
 			continue
 		}
 		b := uint32(1) << i
@@ -480,7 +450,11 @@ func (o *oracle) observe(cf *config, a answer) []finding {
 			j := bits.TrailingZeros32(lower)
 			o.skipped |= lower
 			if o.seenTx&(1<<j) != 0 {
-				out = append(out, finding{clCarry, o.tagsForTx(c, j), fmt.Sprintf("%s was handed to the sequencer, was not released, and %s was released before it (answer %s)", c.flat[j], c.flat[i], c.names(a.idxs))})
+				tg := o.tagsForTx(c, j)
+				if carryScan {
+					tg = append(tg, "carryover-nonempty-while-scanning")
+				}
+				out = append(out, finding{clCarry, tg, fmt.Sprintf("%s was handed to the sequencer, was not released, and %s was released before it (answer %s)", c.flat[j], c.flat[i], c.names(a.idxs))})
 			} else {
 				out = append(out, finding{clOmission, o.tagsForTx(c, j), fmt.Sprintf("%s (visible, never fetched) was jumped over: %s released before it (answer %s)", c.flat[j], c.flat[i], c.names(a.idxs))})
 			}
@@ -625,7 +599,6 @@ func runHistory(cf *config, hist []int, drained map[string]bool) result {
 			if b != nil {
 				b.da.errArmed = true
 			}
-			o.flags |= fError
 			res.trace = append(res.trace, "fail-next-retrieval")
 			pat.WriteByte('e')
 		case aRestart:
@@ -636,7 +609,6 @@ func runHistory(cf *config, hist []int, drained map[string]bool) result {
 				beforeTrailing = a.stateString()
 			}
 			a.restart()
-			o.flags |= fRestart
 			res.trace = append(res.trace, "restart")
 			pat.WriteByte('r')
 		case aNext:
@@ -658,7 +630,7 @@ func runHistory(cf *config, hist []int, drained map[string]bool) result {
 				}
 				ansB = append(ansB, bn.idxs)
 				if !equalInts(ans.idxs, bn.idxs) {
-					fs = append(fs, finding{clRestart, o.historyTags(), fmt.Sprintf("call %d answers %s; the same history without its restarts answers %s", len(ansA), cf.c.names(ans.idxs), cf.c.names(bn.idxs))})
+					fs = append(fs, finding{clRestart, nil, fmt.Sprintf("call %d answers %s; the same history without its restarts answers %s", len(ansA), cf.c.names(ans.idxs), cf.c.names(bn.idxs))})
 				}
 			}
 			for _, f := range fs {
@@ -767,12 +739,13 @@ func allContents(heights, maxTx, maxTotal int) [][][]int {
 
 func TestCheck(t *testing.T) {
 	loggerOnce.Do(func() { _ = logging.SetLogLevel("c20", "FATAL") })
+	debug.SetGCPercent(400) // many short-lived instances, tiny live heap
 	r := vf.Start("C20", "model_checking")
 	heights := vf.Pick(r, 3, 4)
 	maxTx := 3
-	maxTotal := vf.Pick(r, 5, 6)
+	maxTotal := vf.Pick(r, 4, 6)
 	depth := vf.Pick(r, 6, 8)
-	deadline := vf.Pick(r, 12*time.Second, 17*time.Minute)
+	deadline := vf.Pick(r, 50*time.Second, 17*time.Minute)
 	limits := []uint64{1, 2, 3, 5, 8, 0}
 	drifts := []uint64{0, 1, 2}
 	r.Assume = []string{
@@ -814,7 +787,9 @@ func TestCheck(t *testing.T) {
 		}
 	}
 
-	if n, _ := strconv.Atoi(os.Getenv("C20_SAMPLE")); n > 1 { // DEV
+	sampled := ""
+	if n, _ := strconv.Atoi(os.Getenv("C20_SAMPLE")); n > 1 { // development aid: every n-th configuration only (reported as a cap)
+		sampled = fmt.Sprintf("C20_SAMPLE=%d: only every %d-th of %d configurations was explored", n, n, len(cfgs))
 		var sub []*config
 		for i, c := range cfgs {
 			if i%n == 0 {
@@ -840,7 +815,11 @@ func TestCheck(t *testing.T) {
 	)
 	var nextCfg atomic.Int64
 	var wg sync.WaitGroup
-	for w := 0; w < runtime.NumCPU(); w++ {
+	workers := runtime.NumCPU()
+	if w, err := strconv.Atoi(os.Getenv("VERIF_WORKERS")); err == nil && w > 0 {
+		workers = w
+	}
+	for w := 0; w < workers; w++ {
 		wg.Add(1)
 		go func() {
 			defer wg.Done()
@@ -862,6 +841,7 @@ func TestCheck(t *testing.T) {
 				}
 				ntx := len(cf.c.flat)
 				drained := map[string]bool{}
+				sampledCfg := false
 				st := explore.BFS(explore.BFSConfig{Depth: depth, Actions: nActions, Workers: 1, Deadline: remaining}, func(hist []int) explore.Step {
 					res := runHistory(cf, hist, drained)
 					lexec++
@@ -891,7 +871,8 @@ func TestCheck(t *testing.T) {
 						}
 						r.Report(v)
 					}
-					if ci%977 == 0 && len(hist) == 4 {
+					if !sampledCfg && ci%(len(cfgs)/6+1) == len(cfgs)/12 && len(hist) == depth && hist[0] == aNext && hist[1] == aGrow {
+						sampledCfg = true
 						r.Sample(fmt.Sprintf("%s: %s", cf, strings.Join(res.trace, " ; ")))
 					}
 					return explore.Step{Key: res.key}
@@ -929,6 +910,9 @@ func TestCheck(t *testing.T) {
 		r.Outcome(k)
 	}
 	var caps []string
+	if sampled != "" {
+		caps = append(caps, sampled)
+	}
 	if cfgCapped > 0 || cfgSkipped > 0 {
 		caps = append(caps, fmt.Sprintf("deadline %s: %d configurations completed to depth %d, %d cut short, %d not started", deadline, cfgDone, depth, cfgCapped, cfgSkipped))
 	}
